@@ -391,6 +391,10 @@ class Pipeline():
                 steps_runner.run_failure_step_group(failure_group)
             except StopStepGroup:
                 pass
+            except StopPipeline:
+                # the failure handler ends this pipeline only, not its parents
+                logger.debug("StopPipeline: stopped %s", self.name)
+                return
 
             logger.debug("Raising original exception to caller.")
             raise
